@@ -6,16 +6,24 @@ NOTES = ("Technique family: machine-checked proof in Lean 4. Every check = trans
 _PENDING = "machinery for this property is not built yet in this round (planned; see DESIGN.md §8); not claimed until its check runs clean"
 ALL = ["C%02d" % i for i in range(1, 21)]
 
-CHECKS = [
-    {"id": "C15",
-     "technique": "Lean 4 theorems (all keys/offsets/alignments/lengths/chunkings) + exhaustive differential tie to the 4 real maskers",
-     "text": "Proved in Lean for all inputs: simple, table-shifted and SSE2 (head/aligned body/tail, every alignment) masker models equal "
-             "byte-wise XOR with key[(p+i) mod 4]; involution; pointer = bytes processed; any chunking equals one call. The models are "
-             "tied to the code by running the real pure-Python maskers and the NVX C (recompiled from /repo, called in place at "
-             "alignments 0..15) on lengths 0..300 x offsets 0..3 x splits against the Lean spec; the default mask policy is observed "
-             "on real client/server protocol objects.",
-     "note": "Trusted: Lean kernel; the hand-written models mirror the code (checked only by the differential run); gcc/SSE2/cffi. "
-             "Wire policy (mask bit, one key per frame) is an observation on generated API sequences, not a theorem."},
-]
+CHECKS = []
+NOT_APPLICABLE = []
 
-NOT_APPLICABLE = [{"property_id": p, "reason": _PENDING} for p in ALL if p not in {c["id"] for c in CHECKS}]
+
+def load():
+    """collect MANIFEST_ENTRY from every harness/cNN.py"""
+    import importlib
+    from pathlib import Path
+    CHECKS.clear()
+    NOT_APPLICABLE.clear()
+    for f in sorted(Path(__file__).parent.glob("c[0-9][0-9].py")):
+        mod = importlib.import_module("harness." + f.stem)
+        e = getattr(mod, "MANIFEST_ENTRY", None)
+        if e:
+            e = dict(e)
+            e["id"] = f.stem.upper()
+            CHECKS.append(e)
+    have = {c["id"] for c in CHECKS}
+    for p in ALL:
+        if p not in have:
+            NOT_APPLICABLE.append({"property_id": p, "reason": _PENDING})
